@@ -131,3 +131,28 @@ def run_focused(rep, function_names, statuses):
                 hits.append((p[0], c.strip(), p[3], int(p[1]), int(p[2])))
     hits.sort(key=lambda h: len(h[1]))
     return {"hits": hits, "n": total, "keywords": kws, "statements": n}
+
+
+def run_selectcore(rep, count):
+    """SELECT-core correspondence (code vs extracted lexer+parser+printer models). Returns (broken_obligations, summary)."""
+    import re
+    broken = verif.build_topic(go_pkgs=("selectdump",), drivers=(("selectcore", "selectcore_ex"),))
+    if broken:
+        return broken, {}
+    rc, out = verif.sh(["python3", os.path.join(verif.ROOT, "checks", "gen_selectcore_cases.py"), str(rep.seed), str(count), "--run", "--no-build"], timeout=3000)
+    summ = {}
+    dis = 0
+    panics = 0
+    for l in out.splitlines():
+        if l.startswith("stream="):
+            d = dict(x.split("=") for x in l.split())
+            summ[d["stream"]] = {k: d[k] for k in ("total", "in_fragment", "hit_rate", "disagree", "code_panics")}
+            dis += int(d["disagree"])
+            panics += int(d["code_panics"])
+    if not summ or rc not in (0, 1):
+        broken.append({"obligation": "harness:gen_selectcore_cases", "detail": out[-800:]})
+    elif dis or panics:
+        first = [l for l in out.splitlines() if "DISAGREE" in l.upper() or "PANIC" in l][:3]
+        broken.append({"obligation": "correspondence:SELECT-core parser/printer~SelectParseModel/SelectPrintModel",
+                       "detail": "%d disagreements, %d code panics; %s" % (dis, panics, first or out[-600:])})
+    return broken, summ
